@@ -113,9 +113,15 @@ def result_to_df(result_obj: result.Result,
 
 
 def save_df_as_table(df: pd.DataFrame, path: str,
-                     format_str: str = SETTINGS.table_export_format,
-                     transpose: str = SETTINGS.table_export_transpose,
+                     format_str: typing.Optional[str] = None,
+                     transpose: typing.Optional[bool] = None,
                      confirm_overwrite: bool = False) -> None:
+    # The settings are read at call time (not bound as defaults at import
+    # time), so that overrides of this session (-c config) are respected.
+    if format_str is None:
+        format_str = SETTINGS.table_export_format
+    if transpose is None:
+        transpose = SETTINGS.table_export_transpose
     if confirm_overwrite and not user.check_and_confirm_overwrite(path):
         return
     if transpose:
